@@ -17,6 +17,8 @@ impl BlobStore {
     /// Writes a blob to the pager and returns the first page ID.
     /// Direct pager access (for bulk loading).
     pub fn write_direct(pager: &mut Pager, data: &[u8]) -> Result<u64> {
+        #[cfg(luqing_studio_nervusdb_verif)]
+        let _verif_owner = nervusdb_api::verif_hooks::owner_scope("blob");
         // Write from last to first to build the chain
         if data.is_empty() {
             // Handle empty blob
@@ -71,6 +73,8 @@ impl BlobStore {
 
     /// Frees all pages in a blob chain.
     pub fn delete(pager: &mut Pager, mut page_id: u64) -> Result<()> {
+        #[cfg(luqing_studio_nervusdb_verif)]
+        let _verif_owner = nervusdb_api::verif_hooks::owner_scope("blob");
         while page_id != 0 {
             let page = pager.read_page(PageId::new(page_id))?;
             let next_page_id = u64::from_le_bytes(page[0..8].try_into().unwrap());
